@@ -12,6 +12,7 @@ FUNCS = [
     ('c10_c11_list_of_strings', 'heap.list_of_strings', 'list<string>: generated *_free helper releases elements and list; post-return releases the result', HEAP),
     ('c10_c11_record_with_heap_fields', 'heap.record_with_heap_fields', 'record with a string and a list field: *_free helper and post-return release both buffers', HEAP),
     ('c10_c11_result_with_string', 'heap.result_with_string', 'result<string, u32>: a buffer is freed exactly when the case is ok', HEAP),
+    ('c10_c11_import_result_list_of_strings', 'heap.import_result_owned_by_caller', 'list<string> returned by an import: owned by the caller, released entirely by the generated free helper', HEAP),
     ('c10_variant_numeric', 'heap.variant_numeric_cases_free_nothing', 'variant numeric cases: post-return frees nothing', C10.FULL),
     ('c11_import_arguments_untouched', 'heap.import_arguments_untouched', 'import with option<list<string>>: arguments borrowed, left untouched, still the caller\'s to free', C10.FULL),
 ]
